@@ -67,7 +67,15 @@ fn build_sub(spec: &str) -> Option<SubApp<()>> {
     if p[2] != "-" {
         for r in p[2].split(',') {
             let q: Vec<&str> = r.split(':').collect();
-            sub = sub.with_websocket_route(&String::from_utf8(unhex(q[0])).ok()?, |_req: Request, _s: Stream, _: Arc<()>| async {});
+            // the handler names itself on the raw stream (the client sees which WebSocket route was chosen) and closes
+            let id = q[1].to_string();
+            sub = sub.with_websocket_route(&String::from_utf8(unhex(q[0])).ok()?, move |_req: Request, mut s: Stream, _: Arc<()>| {
+                let id = id.clone();
+                async move {
+                    let _ = tokio::io::AsyncWriteExt::write_all(&mut s, format!("WS:{}", id).as_bytes()).await;
+                    let _ = tokio::io::AsyncWriteExt::shutdown(&mut s).await;
+                }
+            });
         }
     }
     Some(sub)
@@ -108,7 +116,14 @@ fn add_default(mut app: App<()>, spec: &str) -> Option<App<()>> {
     if p[2] != "-" {
         for r in p[2].split(',') {
             let q: Vec<&str> = r.split(':').collect();
-            app = app.with_websocket_route(&String::from_utf8(unhex(q[0])).ok()?, |_req: Request, _s: Stream, _: Arc<()>| async {});
+            let id = q[1].to_string();
+            app = app.with_websocket_route(&String::from_utf8(unhex(q[0])).ok()?, move |_req: Request, mut s: Stream, _: Arc<()>| {
+                let id = id.clone();
+                async move {
+                    let _ = tokio::io::AsyncWriteExt::write_all(&mut s, format!("WS:{}", id).as_bytes()).await;
+                    let _ = tokio::io::AsyncWriteExt::shutdown(&mut s).await;
+                }
+            });
         }
     }
     Some(app)
